@@ -719,6 +719,7 @@ func checkC15(c *core.Ctx) {
 		c15Recording(c, r, prog, facts, base, addPool)
 	}
 	c.Check(idBad == "", rC15ID, "provenance.derivedProofID/edbProofID/absenceProofID", r.explain.Decl.Pos(), fmt.Sprintf("%d distinct proofs, identifiers and contents in bijection", len(pool)), idBad)
+	c15EventsFor(c, r)
 	c15Engine(c)
 	c.Rule(rC15Do, "the do-transform pass of (*engine).eval hands the transform (and through it the recorder's DoEmit) one input fact per substitution row, and exactly the stored facts that unify with the rule's body atom (repeated variables agree, wildcards do not constrain): an aggregate's recorded inputs are the facts of its group", 2)
 	X := hv("X")
